@@ -64,6 +64,8 @@ func (in *Interp) resetPath(prefix []int) {
 	in.depth = 0
 	in.curFrame = nil
 	in.Effects = nil
+	in.lastClock = nil
+	in.clockN = 0
 	in.Solver.PopTo(0)
 	in.Solver.Push()
 }
@@ -325,7 +327,18 @@ func strArg(v V) string {
 
 func registerHarnessIntrinsics(in *Interp, pkgPath string) {
 	p := pkgPath + "."
-	reg := func(name string, f Intrinsic) { in.intr[p+name] = f }
+	pure := map[string]bool{"verifTier": true, "verifB2I": true, "verifSymbolic": true, "verifMulFitsInt64": true,
+		"verifMulFitsUint64": true, "verifAddFitsUint64": true, "verifMulAddEqInt64": true}
+	reg := func(name string, f Intrinsic) {
+		if pure[name] {
+			in.intr[p+name] = f
+			return
+		}
+		in.intr[p+name] = func(in *Interp, fr *Frame, a []V) V {
+			in.specAbortIf("harness intrinsic in region")
+			return f(in, fr, a)
+		}
+	}
 	bv := func(w int) Intrinsic {
 		return func(in *Interp, fr *Frame, a []V) V { return in.newNondet(strArg(a[0]), w) }
 	}
